@@ -32,14 +32,22 @@ Inductive query :=
 | QTrav (o : pt) (dir : dvec) (lo hi : dy) (caps : list dy) (hit_hi hit_lo : list bool) (res : list nat)
   (* ClosestPoint: keys = every element's ClosestPoint(p).DistanceSquared(p) * 16 * 2^kexp,
      pts = every element's ClosestPoint(p); ridx, rpt = what the tree returned *)
-| QClosest (p : pt) (kexp : N) (keys : list Z) (pts : list fpt) (ridx : Z) (rpt : fpt).
+| QClosest (p : pt) (kexp : N) (keys : list Z) (pts : list fpt) (ridx : Z) (rpt : fpt)
+  (* not a query: the mesh the element set was taken from (Mesh.OctTree / OctTreeDepth /
+     OctTreeWithAttributeAndDepth): kind 0 point cloud, 1 line strip, 2 triangles; verts = the values of
+     the attribute the tree was built on.  Element i must be mesh primitive i with that primitive's box. *)
+| QMesh (kind : nat) (verts : list pt) (idx : list nat).
 
 Inductive case :=
 | COct (boxes : list box) (depth : option nat) (impl_tree : option tree) (qs : list query)
   (* one ray against a BVH: leaf boxes, per leaf tVal / Distance, the dumped structure, what
      BVHNode.Hit and HitList.Hit returned (Distance when hit) *)
 | CBvh (lboxes : list box) (tvs : list (option dy)) (dists : list dy) (structure : bvh)
-       (o : pt) (dir : dvec) (lo hi : dy) (impl lst : option dy).
+       (o : pt) (dir : dvec) (lo hi : dy) (impl lst : option dy)
+       (* further nearest-hit searches over the same objects: rendering.Tree.Hit (octree over the objects'
+          boxes + ElementsIntersectingRay) and, for pure triangle sets, rendering.Mesh.Hit
+          (TraverseIntersectingRay with the narrowing iterator) *)
+       (extra : list (option dy)).
 
 Definition nat_list_eqb := list_eqb Nat.eqb.
 Definition idxs_where (bs : list bool) : list nat :=
@@ -105,6 +113,7 @@ Definition qprop (boxes : list box) (q : query) : bool :=
       let i := Z.to_nat ridx in
       Nat.ltb i n && fpt_eqb rpt (nth i pts fzero) &&
       forallb (fun k => nth i keys 0 <=? k) keys
+  | QMesh kind verts idx => list_eqb box_eqb (mesh_boxes kind verts idx) boxes
   end.
 
 Definition opt_dy_eqb (a b : option dy) : bool :=
@@ -136,10 +145,11 @@ Definition brute_hit (tvs : list (option dy)) (dists : list dy) (hi : dy) : opti
 Definition prop_ok (c : case) : bool :=
   match c with
   | COct boxes _ _ qs => forallb (qprop boxes) qs
-  | CBvh lboxes tvs dists _ _ _ lo hi impl lst =>
-      (* BVHNode.Hit = HitList.Hit = exhaustive minimum (the lower bound is 0 in this stream, so
-         tVal = Distance and the minimum is order independent) *)
-      opt_dy_eqb impl lst && opt_q_dy_eqb (brute_hit tvs dists hi) impl
+  | CBvh lboxes tvs dists _ _ _ lo hi impl lst extra =>
+      (* BVHNode.Hit = HitList.Hit = exhaustive minimum (hit parameters are absolute: tVal = Distance,
+         so the minimum is order independent) = every other nearest-hit search over the same objects *)
+      opt_dy_eqb impl lst && opt_q_dy_eqb (brute_hit tvs dists hi) impl &&
+      forallb (fun e => opt_dy_eqb e lst) extra
   end.
 
 (* ---------- model vs implementation ---------- *)
@@ -171,6 +181,7 @@ Definition qcorr (boxes : list box) (t : tree) (q : query) : bool :=
            || Nat.ltb 1 (length (filter (Z.eqb k) keys)))          (* tie: any minimiser *)
       | None => false
       end
+  | QMesh _ _ _ => true
   end.
 
 (* the invariant (OctreeProofs.inv) as a test on the implementation's own tree: every element in or
@@ -224,10 +235,10 @@ Definition corr_ok (c : case) : bool :=
   | COct boxes depth impl_tree qs =>
       match new_octree depth boxes, impl_tree with
       | Some _, Some it => invb it && elems_okb boxes it && forallb (qcorr_set boxes it) qs
-      | None, None => match qs with [] => true | _ => false end
+      | None, None => forallb (fun q => match q with QMesh _ _ _ => true | _ => false end) qs
       | _, _ => false
       end
-  | CBvh lboxes tvs dists s o dir lo hi impl lst =>
+  | CBvh lboxes tvs dists s o dir lo hi impl lst _ =>
       let n := length lboxes in
       let lbox := fun i => nth i lboxes zero_box in
       let tv := fun i => match nth i tvs None with Some t => Some (dyq t) | None => None end in
